@@ -210,7 +210,7 @@ class _Recorder:
         self.searched: List[str] = []      # the strings handed to the regular expression
 
 
-def simulate_header_machine(prog, seq, rx_ok: bool):
+def simulate_header_machine(prog, seq, rx_ok: bool, sizes=None):
     """CheckHeader.run interpreted (minieval) over a sequence of abstract statements -- "mc" block comment, "oc" // comment,
     "nc" anything else -- with a stub regular expression that matches (rx_ok) or not.  -> (_Recorder, emitted_at indexes)."""
     ch = prog.cls("CheckHeader")
@@ -251,11 +251,15 @@ def simulate_header_machine(prog, seq, rx_ok: bool):
             if isinstance(v, (str, int, tuple)):
                 ev.globals[nm] = v
     me = Obj("CheckHeader", context=context, name="CheckHeader")
+    from ..fold import class_constants
+    for k_, v_ in class_constants(ch).items():           # class-level constants read through self
+        me.__dict__.setdefault(k_, v_)
     emitted_at = []
     for i, k in enumerate(seq):
         context.history.append("IsComment" if k in ("mc", "oc") else "IsVarDeclaration")
         if k == "mc":
-            context.tokens = [Obj("Token", type="MULT_COMMENT", value=f"/* {i} */", pos=(i + 1, 1))]
+            body = f"/* {i} */" if not sizes else "/*" + "x" * (sizes[i] - 4) + "*/"
+            context.tokens = [Obj("Token", type="MULT_COMMENT", value=body, pos=(i + 1, 1))]
         elif k == "oc":
             context.tokens = [Obj("Token", type="COMMENT", value=f"// {i}", pos=(i + 1, 1))]
         else:
@@ -310,6 +314,26 @@ def rule_machine(run, prog):
     run.ob("R-13.3", f"{runm.key}::two-flag-machine", bad is None,
            (f"statement sequence {bad[0]} with the regex {'matching' if bad[1] else 'failing'} emits {bad[2]}, expected "
             f"{bad[3]} INVALID_HEADER") if bad else "ok", runm.node, sequences=n_seq)
+    # the verdict is the recogniser's, whatever the amount of text: a header may be followed by any number of block comments of
+    # any size (they all go to the recogniser, which searches), so no size or count of the accumulated text decides anything
+    bad_size = None
+    n_size = 0
+    try:
+        for sizes in ([891], [891, 1000], [891, 10 ** 4], [891, 10 ** 5], [891, 10 ** 6], [891] + [80] * 40, [891] + [8] * 300):
+            seq = ("mc",) * len(sizes) + ("nc",)
+            for rx_ok in (True, False):
+                rec, _ = simulate_header_machine(prog, seq, rx_ok, sizes=sizes + [0])
+                n_size += 1
+                want = [] if rx_ok else ["INVALID_HEADER"]
+                if (rec.emitted != want or len(rec.searched) != 1 or len(rec.searched[0]) != sum(sizes) + len(sizes)) and bad_size is None:
+                    bad_size = (sizes, rx_ok, rec.emitted, want, [len(x) for x in rec.searched])
+    except Unsupported as e:
+        raise Undecided(f"CheckHeader.run is outside the evaluable subset: {e}")
+    run.ob("R-13.3", f"{runm.key}::size-independent", bad_size is None,
+           (f"leading block comments of {bad_size[0][:3]}{'...' if len(bad_size[0]) > 3 else ''} characters ({len(bad_size[0])} comments) with the "
+            f"regex {'matching' if bad_size[1] else 'failing'} emit {bad_size[2]}, expected {bad_size[3]}; the recogniser saw texts of "
+            f"{bad_size[4]} characters: a well-formed header followed by a long comment is judged by its size, not by the recogniser")
+           if bad_size else "ok", runm.node, evaluations=n_size)
     rm = registry_model(prog)
     run.ob("R-13.3", f"{ch.key}::runs-on-every-statement", "_rule" in rm.live_slots("CheckHeader"),
            "CheckHeader does not run after every statement (slot _rule): an empty or code first line could pass unnoticed",
